@@ -1316,8 +1316,15 @@ func execAnotherModule(vm *r.VM, libInfo r.LibNameInfo) (*r.Module, error) {
 		// module's own methods and types declared in the module's scope (one level above
 		// its imports), so that its exported methods still find them when another module calls them
 		vm.BeginScope()
-		for name, val := range module.GetAllExportValues() {
-			if err := vm.DeclareConstElement(r.NewIDName(name), val); err != nil {
+		exportValues := module.GetAllExportValues()
+		names := make([]string, 0, len(exportValues))
+		for name := range exportValues {
+			names = append(names, name)
+		}
+		// in sorted order, so that nothing depends on the iteration order of the map
+		sort.Strings(names)
+		for _, name := range names {
+			if err := vm.DeclareConstElement(r.NewIDName(name), exportValues[name]); err != nil {
 				return nil, WrapRuntimeError(vm, err)
 			}
 		}
